@@ -14,7 +14,8 @@
 import json, os, shutil, subprocess, sys, tempfile, time, glob, re, concurrent.futures as cf
 
 prop = sys.argv[1]
-REPO, V = "/repo", "/verif"
+REPO = "/repo"
+V = os.path.dirname(os.path.abspath(__file__))
 BIN = V + "/bin/hwcheck"
 ENV = dict(os.environ, GOFLAGS="-mod=mod", GOPROXY="off", GOWORK="off", GOTOOLCHAIN="local", GOSUMDB="off")
 t0 = time.time()
@@ -43,7 +44,7 @@ def overlay_from_patch(path, dst, desc):
 
 def sweep(vroot, shards):
     def run(i):
-        p = subprocess.run([BIN, "-sweep", vroot, "-p", prop, "-shard", "%d/%d" % (i, shards)], capture_output=True, text=True,
+        p = subprocess.run([BIN, "-verif", V, "-sweep", vroot, "-p", prop, "-shard", "%d/%d" % (i, shards)], capture_output=True, text=True,
                            env=dict(ENV, GOMAXPROCS="2"))
         return [json.loads(l) for l in p.stdout.splitlines() if l.startswith("{")]
     out = []
@@ -120,7 +121,7 @@ extra["sweep_wall_s"] = round(time.time() - t0, 1)
 os.makedirs(V + "/out", exist_ok=True)
 xf = V + "/out/%s-sweep.json" % prop
 json.dump(extra, open(xf, "w"))
-rc = subprocess.run([BIN, "-p", prop, "-tier", "thorough", "-extra", xf], env=ENV).returncode
+rc = subprocess.run([BIN, "-verif", V, "-p", prop, "-tier", "thorough", "-extra", xf], env=ENV).returncode
 sv, bv, gv = extra["seeded_variants"], extra["benign_variants"], extra["generated_variants"]
 print("sweep: seeded %d/%d flagged (silent: %s) | benign silent %d/%d (flagged: %s) | generated: %d flagged, %d silent, %d do not compile of %d | %.0fs" % (
     sv["flagged"], sv["total"], sv["silent"], bv["silent"], bv["total"], [b["patch"] for b in bv["flagged"]], gv["flagged"], gv["silent"], gv["nocompile"], gv["generated"], extra["sweep_wall_s"]))
